@@ -165,6 +165,12 @@ func (c CurlyRouter) computeWebserviceScore(requestTokens []string, tokens []str
 			if len(each) == 0 {
 				return false, score
 			}
+			if colon := strings.Index(other, ":"); colon != -1 {
+				// a root path variable with a regular expression only claims what it matches
+				if matchesToken, _ := c.regularMatchesPathToken(other, colon, each); !matchesToken {
+					return false, score
+				}
+			}
 			score += 1
 		} else {
 			// not a parameter
